@@ -62,6 +62,9 @@ func flatPresize(f *flatVal, n, c int) {
 }
 
 func flMem(a []string, preLen, preCap int, recycled bool) string {
+	if memSkip() {
+		return "ok 0 skipped"
+	}
 	p := &parser{toks: a}
 	t := p.ty()
 	bs := unhex(p.next())
@@ -88,8 +91,12 @@ func flMem(a []string, preLen, preCap int, recycled bool) string {
 		runtime.ReadMemStats(&m1)
 		return m1.TotalAlloc - m0.TotalAlloc, outcome
 	}
-	run()
+	if n0, oc0 := run(); n0 > memHugeBytes {
+		memNote(n0)
+		return fmt.Sprintf("ok %d %s", n0, oc0)
+	}
 	n, oc := run()
+	memNote(n)
 	return fmt.Sprintf("ok %d %s", n, oc)
 }
 
